@@ -626,6 +626,26 @@ def consumer(ctx, d):
                         ctx.fail(f"C15:transport_density({mode},dim={dim}):constant-flux", "a flux that is constant in a cell must give density = its norm (weights sum to 1)",
                                  {"call": ["consumer", mode, dim, list(shape)], "face_flux_per_axis": fa.tolist(), "required": float(np.linalg.norm(fa)),
                                   "observed": repr(tdc)[:200] if isinstance(tdc, Raised) else np.asarray(tdc)[inner].ravel().tolist()[:5]})
+                # the statement of the consumer itself ("the modes merely differ in the integration rule"): the density is the quadrature of
+                # ||cell flux|| with the rule the mode selects - evaluated here with the REAL rule functions and the real face_to_cell
+                src_rule = (ctx.cov.get("g2_l1_modes") or {}).get(mode)
+                if src_rule is None:
+                    ctx.notes.append(f"consumer oracle skipped for {mode}: the rule call of the mode could not be extracted")
+                else:
+                    rr = impl_rule(d.quadrature.reference_cell_corners, dim) if src_rule[0] == "corners" else impl_rule(
+                        d.quadrature.gauss_reference_cell, dim, src_rule[1] if src_rule[1] == "max" else int(src_rule[1]))
+                    if not isinstance(rr, Raised) and len(rr[0]) == len(rr[1]):
+                        refi = np.zeros(shape)
+                        for pt, wq in zip(*rr):
+                            refi += wq * np.linalg.norm(d.face_to_cell(grid, flux, pt=np.array(pt) if dim > 1 else pt[0]), 2, axis=-1)
+                        ei = float(np.max(np.abs(refi - td))) / max(1.0, float(np.max(np.abs(td))))
+                        if not ei <= 1e-12:
+                            cidx = int(np.argmax(np.abs(refi - td)))
+                            ctx.fail(f"C15:transport_density({mode},dim={dim}):not-the-quadrature-of-its-rule",
+                                     "transport_density differs from the sum over the rule its L1 mode selects of weight * ||face_to_cell(flux, point)|| "
+                                     "(the rule in effect is not the proved one: other weights / points)",
+                                     {"call": ["consumer", mode, dim, list(shape)], "flux": flux.tolist(), "cell": cidx, "density": float(np.asarray(td).ravel()[cidx]),
+                                      "quadrature_with_the_selected_rule": float(refi.ravel()[cidx]), "relative_difference": ei})
                 if isinstance(m, str):
                     diffs.append((mode, dim, "model has no rule", m))
                     continue
